@@ -641,7 +641,8 @@ def onRecoveryMessage (k : W → Pl → W) (e : Env) (w : W) (x : Hd) (r : Rec) 
           | some ph => r.preps.foldl (fun w j => k w (.prepResp ⟨j, x.h, x.v⟩ ph)) w
         else w
       if x.v ≤ w.nd.view then
-        r.commits.foldl (fun w c => k w (.commit ⟨c.2.1, x.h, x.v⟩ c.2.2)) w
+        -- recovery_message.go:266-281 GetCommits: every Commit keeps the view it was sent in (ec63204)
+        r.commits.foldl (fun w c => k w (.commit ⟨c.2.1, x.h, c.1⟩ c.2.2)) w
       else w
   w.upd fun nd => { nd with recovering := false }
 
